@@ -51,6 +51,8 @@ def run(ctx):
         A.run_mc(ctx, "abs_w2_s3", [2, 2, 2, 1], [3], 2, 3, A.FORK3_W2, timeout=3000,
                  witnesses=["W_ImplFinalized"])
         A.run_mc(ctx, "abs_w4_s3", [2, 2, 2, 1], [3], 4, 3, A.FORK3, timeout=3400)
+        # five validators, other threshold geometry (total 14: 20% = 2.8, 40% = 5.6, 60% = 8.4, 80% = 11.2)
+        A.run_mc(ctx, "abs5_w4_s2", [3, 3, 3, 3, 2], [4], 4, 2, A.FORK2, timeout=2400)
     # 2. code level, components: the real Votor takes exactly the spec's transitions
     V.run_model(ctx, "votor_handover", c05.HANDOVER, 7, 7 if ctx.tier == "quick" else 9,
                 sample=60000 if ctx.tier == "quick" else 600000)
